@@ -304,13 +304,13 @@ def callback_world(run, rng, idx, front, loss, p_raise):
     addrs = [("10.5.%d.%d" % (idx % 200, i + 1), 5000 + i) for i in range(rng.choice([1, 2, 3]))]
     try:
         recs = []
-        for st in range(70):
+        for st in range(150):
             if st % 4 == 0 and len(recs) < len(addrs):
                 recs.append(w.add_client(addrs[len(recs)], on_connect=on_connect))
                 recs[-1]["hc"].client.setMessageTimeout(0.25)
             if st == 40:
                 faulty[0] = False
-            if st == 52:
+            if st == 60:
                 quiet[0] = True
             for rec in recs:
                 hc = rec["hc"]
@@ -324,7 +324,7 @@ def callback_world(run, rng, idx, front, loss, p_raise):
                 if st == 30 and len(recs) > 1 and rec is recs[-1] and rng.random() < 0.5:
                     hc.client.disconnect()       # (its peers may then be written to from the disconnect event)
             n_hist = len(w.sent_hist)
-            if not w.step(600 if st < 40 else 1500):
+            if not w.step(600):        # 600 ticks = 39 ms; message time-outs 0.25 s on both sides: a round trip is well below it
                 break
             for a, d in w.sent_hist[n_hist:]:
                 h, b = S.abstract(d, sim.keys, [w.by_addr[a]["hc"].key_id()])
